@@ -186,6 +186,9 @@ def predicate(prop, op, il, mres, tag):
     if k == "sign" and mres == "err noloc" and not il.startswith("panic") and prop in ("C01", "C03") and _kv(tag).get("le") == "0":
         return ("Relic.Props.C01.macho_irregular_refused_full", "refused (or verifiable output)",
                 "signing reported success but no signature can be located in the output (" + il + "; " + tag + ")")
+    if k == "sign" and mres == "err noloc" and il == "err noloc" and prop in ("C01", "C03") and _slack(_b(f[2])):
+        return ("Relic.Props.C01.macho_irregular_refused_full", "refused (or verifiable output)",
+                "signing reported success but the new LC_CODE_SIGNATURE lies behind unused bytes of sizeofcmds: no reader finds it (" + tag + ")")
     if k == "sign" and il.startswith("ok "):
         kv = _kv(tag)
         parts = dict(p.split("=", 1) for p in il.split(" ")[1:] if "=" in p)
@@ -242,6 +245,24 @@ def _trailing(kv):
         return False
 
 
+def _slack(inp):
+    """unsigned thin image whose sizeofcmds exceeds the sum of its command sizes (F-MACHO-4)"""
+    if len(inp) < 32 or inp[:4] not in (b"\xcf\xfa\xed\xfe", b"\xce\xfa\xed\xfe", b"\xfe\xed\xfa\xcf", b"\xfe\xed\xfa\xce"):
+        return False
+    o = ">" if inp[0] == 0xfe else "<"
+    ncmd, cmdsz = struct.unpack(o + "II", inp[16:24])
+    hdr = 32 if inp[:4] in (b"\xcf\xfa\xed\xfe", b"\xfe\xed\xfa\xcf") else 28
+    pos = hdr
+    for _ in range(min(ncmd, 1000)):
+        if pos + 8 > len(inp):
+            return False
+        cmd, siz = struct.unpack(o + "II", inp[pos:pos + 8])
+        if cmd == 0x1d or siz < 8:
+            return False
+        pos += siz
+    return pos < hdr + cmdsz
+
+
 def _has_lc(inp, o, hdr, ncmd):
     pos = hdr
     for _ in range(min(ncmd, 1000)):
@@ -269,6 +290,8 @@ def matches_known(k, op, il, mres, tag):
     if site == "machos.Sign:trailing-bytes":
         return kind == "sign" and il.startswith("ok ") and mres.startswith("ok ") and mres.split(" ")[-1] == "verify=fail" and \
             il.split(" ")[-1].startswith("verify=fail") and _trailing(_kv(tag))
+    if site == "machos.scanFile:sizeofcmds-slack":
+        return kind == "sign" and il == "err noloc" and mres == "err noloc" and _slack(_b(op.split()[2]))
     if site == "machos.scanFile:no-linkedit":
         return kind == "sign" and il == "err noloc" and mres == "err noloc" and _kv(tag).get("le") == "0"
     return False
